@@ -150,6 +150,24 @@ theorem ext_frame {E : Bytes → Bytes} {rk : Val} (hO : LeafOk O E rk) (env : E
     EvIn P G O 1 env (.ext [] 0 true [(.lit k)]) env .norm :=
   evIn_ext (vs := [.int k]) rfl (by rw [hO.frame]; rfl)
 
+/-- the first element of an array value (what the bounds check `&a[0]` reads) -/
+def idx0 : Val → Val
+  | .arr (w :: _) => w
+  | _ => .int 0
+
+/-- `_ = a[0]`: the bounds check of a pointer argument `&a[0]` of an assembly routine, on a non-empty array -/
+theorem chk0 {env : Env} {a : Expr} {v : Val} (ha : evalV G env a = some v) (hv : ∃ w ws, v = .arr (w :: ws)) :
+    EvIn P G O 1 env (.assign 8 [] (.idxc a 0)) (env.set 8 (idx0 v)) .norm := by
+  obtain ⟨w, ws, rfl⟩ := hv
+  refine EvIn.assign ?_
+  rw [evalV_idxc, ha]
+  rfl
+
+theorem bytesV_ne {x : Bytes} (h : 0 < x.length) : ∃ w ws, bytesV x = .arr (w :: ws) := by
+  cases x with
+  | nil => simp at h
+  | cons a x => exact ⟨_, _, rfl⟩
+
 theorem add_i64_nat {a b : Nat} (h : a + b < 9223372036854775808) :
     evalOp2 (.add .i64) (a : Int) (b : Int) = some (((a + b : Nat) : Nat) : Int) := by
   show some (norm .i64 ((a : Int) + (b : Int))) = _
@@ -170,20 +188,26 @@ local macro_rules
   | `(tactic| lk) => `(tactic| simp (disch := omega) only [Env.set_other, Env.set_same])
   | `(tactic| lk [$ts,*]) => `(tactic| simp (disch := omega) only [Env.set_other, Env.set_same, $ts,*])
 
-/-- the first eleven statements of a chunk (counter `cv`, key stream `tv`, xor result `rv`; `fillCounterN` = function
+/-- the first seventeen statements of a chunk (with the bounds checks `_ = a[0]` of the pointer arguments) (counter `cv`, key stream `tv`, xor result `rv`; `fillCounterN` = function
     `g`, the kernel = external `en`, the xor = external `xn`, `N` = 16n bytes), followed by `rest` -/
 def chunkS (cv tv rv g en xn : Nat) (N : Int) (rest : Stmt) : Stmt :=
   .seq (.assign cv [] (.mk (.lit N) (.lit 0)))
   (.seq (.assign tv [] (.mk (.lit N) (.lit 0)))
   (.seq (.call [cv] g [(.var cv), (.var 7), (.var 14)])
+  (.seq (.assign 8 [] (.idxc (.var 4) 0))
+  (.seq (.assign 8 [] (.idxc (.var tv) 0))
+  (.seq (.assign 8 [] (.idxc (.var cv) 0))
   (.seq (.ext [] 0 true [(.lit (en : Int))])
   (.seq (.ext [tv] en false [(.var 4), (.var tv), (.var cv)])
+  (.seq (.assign 8 [] (.idxc (.slice (.var 5) (.var 9) (.len (.var 5))) 0))
+  (.seq (.assign 8 [] (.idxc (.var tv) 0))
+  (.seq (.assign 8 [] (.idxc (.var 6) 0))
   (.seq (.ext [] 0 true [(.lit (xn : Int))])
   (.seq (.ext [rv] xn false [(.slice (.var 5) (.var 9) (.len (.var 5))), (.var tv), (.var 6)])
   (.seq (.assign 5 [] (.cat (.slice (.var 5) (.lit 0) (.var 9)) (.var rv)))
   (.seq (.assign 8 [] (.len (.slice (.var 5) (.op2 (.add .i64) (.var 9) (.lit N)) (.len (.var 5)))))
   (.seq (.assign 9 [] (.op2 (.add .i64) (.var 9) (.lit N)))
-  (.seq (.assign 6 [] (.slice (.var 6) (.lit N) (.len (.var 6)))) rest))))))))))
+  (.seq (.assign 6 [] (.slice (.var 6) (.lit N) (.len (.var 6)))) rest))))))))))))))))
 
 /-- the variables of `cryptoBlocks` after `m` whole blocks (`bc` = the value of `blockCount`) -/
 structure St (rk : Val) (E : Bytes → Bytes) (out0 X J : Bytes) (env : Env) (m bc : Nat) : Prop where
@@ -196,6 +220,34 @@ structure St (rk : Val) (E : Bytes → Bytes) (out0 X J : Bytes) (env : Env) (m 
 
 theorem maxPlain_eq : maxPlain = 68719476704 := rfl
 
+/-- the seventeen statements of a chunk in sequence (fuel bookkeeping, kept away from the big context of `chunk_ok`) -/
+theorem chunk_seq {P : Prog} {G : Nat → Val} {O : Oracle} {cv tv rv g en xn Ffill F : Nat} {N : Int} {rest : Stmt} {c : Ctl}
+    {e0 e1 e2 e3 e3a e3b e3c e5 e5a e5b e5c e7 e8 e9 e10 e11 e'' : Env}
+    (c1 : EvIn P G O 1 e0 (.assign cv [] (.mk (.lit N) (.lit 0))) e1 .norm)
+    (c2 : EvIn P G O 1 e1 (.assign tv [] (.mk (.lit N) (.lit 0))) e2 .norm)
+    (c3 : EvIn P G O (Ffill + 1) e2 (.call [cv] g [(.var cv), (.var 7), (.var 14)]) e3 .norm)
+    (k1 : EvIn P G O 1 e3 (.assign 8 [] (.idxc (.var 4) 0)) e3a .norm)
+    (k2 : EvIn P G O 1 e3a (.assign 8 [] (.idxc (.var tv) 0)) e3b .norm)
+    (k3 : EvIn P G O 1 e3b (.assign 8 [] (.idxc (.var cv) 0)) e3c .norm)
+    (c4 : EvIn P G O 1 e3c (.ext [] 0 true [(.lit (en : Int))]) e3c .norm)
+    (c5 : EvIn P G O 1 e3c (.ext [tv] en false [(.var 4), (.var tv), (.var cv)]) e5 .norm)
+    (k4 : EvIn P G O 1 e5 (.assign 8 [] (.idxc (.slice (.var 5) (.var 9) (.len (.var 5))) 0)) e5a .norm)
+    (k5 : EvIn P G O 1 e5a (.assign 8 [] (.idxc (.var tv) 0)) e5b .norm)
+    (k6 : EvIn P G O 1 e5b (.assign 8 [] (.idxc (.var 6) 0)) e5c .norm)
+    (c6 : EvIn P G O 1 e5c (.ext [] 0 true [(.lit (xn : Int))]) e5c .norm)
+    (c7 : EvIn P G O 1 e5c (.ext [rv] xn false [(.slice (.var 5) (.var 9) (.len (.var 5))), (.var tv), (.var 6)]) e7 .norm)
+    (c8 : EvIn P G O 1 e7 (.assign 5 [] (.cat (.slice (.var 5) (.lit 0) (.var 9)) (.var rv))) e8 .norm)
+    (c9 : EvIn P G O 1 e8 (.assign 8 [] (.len (.slice (.var 5) (.op2 (.add .i64) (.var 9) (.lit N)) (.len (.var 5))))) e9 .norm)
+    (c10 : EvIn P G O 1 e9 (.assign 9 [] (.op2 (.add .i64) (.var 9) (.lit N))) e10 .norm)
+    (c11 : EvIn P G O 1 e10 (.assign 6 [] (.slice (.var 6) (.lit N) (.len (.var 6)))) e11 .norm)
+    (hr : EvIn P G O F e11 rest e'' c) :
+    EvIn P G O (F + (Ffill + 40)) e0 (chunkS cv tv rv g en xn N rest) e'' c := by
+  have t1 := EvIn.seq c8 (EvIn.seq c9 (EvIn.seq c10 (EvIn.seq c11 hr)))
+  have t2 := EvIn.seq k4 (EvIn.seq k5 (EvIn.seq k6 (EvIn.seq c6 (EvIn.seq c7 t1))))
+  have t3 := EvIn.seq k1 (EvIn.seq k2 (EvIn.seq k3 (EvIn.seq c4 (EvIn.seq c5 t2))))
+  have t4 := EvIn.seq c1 (EvIn.seq c2 (EvIn.seq c3 t3))
+  exact t4.mono (by omega)
+
 section Chunk
 variable {P : Prog} {G : Nat → Val} {O : Oracle} {E : Bytes → Bytes} {rk : Val} {Ffill : Nat} {out0 X J : Bytes}
 
@@ -205,10 +257,13 @@ theorem chunk_ok (hO : LeafOk O E rk) (hF : FillOk P G O Ffill) (hJ : J.length =
     (htr : tv ≠ rv) (hg : (g, n) ∈ fillFns) (hen : (en, n) ∈ encLeaves) (hxn : (xn, 16 * n) ∈ xorLeaves)
     {env : Env} {m : Nat} (hs : St rk E out0 X J env m m) (hlen : 16 * (m + n) ≤ X.length) :
     ∃ e', (∀ F rest e'' c, EvIn P G O F e' rest e'' c →
-        EvIn P G O (F + (Ffill + 30)) env (chunkS cv tv rv g en xn ((16 * n : Nat) : Int) rest) e'' c) ∧
+        EvIn P G O (F + (Ffill + 40)) env (chunkS cv tv rv g en xn ((16 * n : Nat) : Int) rest) e'' c) ∧
       St rk E out0 X J e' (m + n) m ∧ (∀ y, y < 16 → y ≠ 5 → y ≠ 6 → y ≠ 8 → y ≠ 9 → e' y = env y) := by
   rw [maxPlain_eq] at hmax
   have hE := hO.E_len
+  have hn : 0 < n := by
+    simp [fillFns] at hg
+    omega
   let j := blockToNat J
   let Z : Bytes := List.replicate (16 * n) 0
   let CB := ctrBlocks j (m + 1) n
@@ -225,8 +280,14 @@ theorem chunk_ok (hO : LeafOk O E rk) (hF : FillOk P G O Ffill) (hJ : J.length =
   let e1 := env.set cv (bytesV Z)
   let e2 := e1.set tv (bytesV Z)
   let e3 := e2.set cv (bytesV CB)
-  let e5 := e3.set tv (bytesV T)
-  let e7 := e5.set rv (bytesV R)
+  let e3a := e3.set 8 (idx0 rk)
+  let e3b := e3a.set 8 (idx0 (bytesV Z))
+  let e3c := e3b.set 8 (idx0 (bytesV CB))
+  let e5 := e3c.set tv (bytesV T)
+  let e5a := e5.set 8 (idx0 (bytesV (cur.drop (16 * m))))
+  let e5b := e5a.set 8 (idx0 (bytesV T))
+  let e5c := e5b.set 8 (idx0 (bytesV (X.drop (16 * m))))
+  let e7 := e5c.set rv (bytesV R)
   let e8 := e7.set 5 (bytesV tgt)
   let e9 := e8.set 8 (.int ((tgt.drop (16 * m + 16 * n)).length : Int))
   let e10 := e9.set 9 (.int ((16 * m + 16 * n : Nat) : Int))
@@ -241,39 +302,56 @@ theorem chunk_ok (hO : LeafOk O E rk) (hF : FillOk P G O Ffill) (hJ : J.length =
     have g2 : e2 7 = bytesV J := by lk [e2, e1, hs.h7]
     have g3 : e2 14 = .int (m : Int) := by lk [e2, e1, hs.h14]
     simp only [evalVs_cons, evalVs_nil, evalV_var, g1, g2, g3]
-  have c4 : EvIn P G O 1 e3 (.ext [] 0 true [(.lit (en : Int))]) e3 .norm := ext_frame hO _ _
-  have c5 : EvIn P G O 1 e3 (.ext [tv] en false [(.var 4), (.var tv), (.var cv)]) e5 .norm := by
+  have k1 : EvIn P G O 1 e3 (.assign 8 [] (.idxc (.var 4) 0)) e3a .norm :=
+    chk0 (evar (by lk [e3, e2, e1, hs.h4])) hO.rk_ne
+  have k2 : EvIn P G O 1 e3a (.assign 8 [] (.idxc (.var tv) 0)) e3b .norm :=
+    chk0 (evar (by lk [e3a, e3, e2, e1])) (bytesV_ne (by omega))
+  have k3 : EvIn P G O 1 e3b (.assign 8 [] (.idxc (.var cv) 0)) e3c .norm :=
+    chk0 (evar (by lk [e3b, e3a, e3])) (bytesV_ne (by rw [ctrBlocks_length]; omega))
+  have c4 : EvIn P G O 1 e3c (.ext [] 0 true [(.lit (en : Int))]) e3c .norm := ext_frame hO _ _
+  have c5 : EvIn P G O 1 e3c (.ext [tv] en false [(.var 4), (.var tv), (.var cv)]) e5 .norm := by
     refine ext1 (vs := [rk, bytesV Z, bytesV CB]) ?_ ?_
-    · have g1 : e3 4 = rk := by lk [e3, e2, e1, hs.h4]
-      have g2 : e3 tv = bytesV Z := by lk [e3, e2, e1]
-      have g3 : e3 cv = bytesV CB := by lk [e3]
+    · have g1 : e3c 4 = rk := by lk [e3c, e3b, e3a, e3, e2, e1, hs.h4]
+      have g2 : e3c tv = bytesV Z := by lk [e3c, e3b, e3a, e3, e2, e1]
+      have g3 : e3c cv = bytesV CB := by lk [e3c, e3b, e3a, e3]
       simp only [evalVs_cons, evalVs_nil, evalV_var, g1, g2, g3]
     · rw [hO.enc en n hen Z CB (by omega) (by rw [ctrBlocks_length]; omega), blocksE_ctrBlocks,
         List.drop_of_length_le (by omega), List.append_nil]
-  have c6 : EvIn P G O 1 e5 (.ext [] 0 true [(.lit (xn : Int))]) e5 .norm := ext_frame hO _ _
   have g5_5 : e5 5 = bytesV cur := by
     have h := hs.h5
-    lk [e5, e3, e2, e1]
+    lk [e5, e3c, e3b, e3a, e3, e2, e1]
     exact h
-  have g5_9 : e5 9 = .int ((16 * m : Nat) : Int) := by lk [e5, e3, e2, e1, hs.h9]
-  have c7 : EvIn P G O 1 e5 (.ext [rv] xn false [(.slice (.var 5) (.var 9) (.len (.var 5))), (.var tv), (.var 6)]) e7
+  have g5_9 : e5 9 = .int ((16 * m : Nat) : Int) := by lk [e5, e3c, e3b, e3a, e3, e2, e1, hs.h9]
+  have g5_6 : e5 6 = bytesV (X.drop (16 * m)) := by lk [e5, e3c, e3b, e3a, e3, e2, e1, hs.h6]
+  have qs : ∀ e : Env, e 5 = bytesV cur → e 9 = .int ((16 * m : Nat) : Int) →
+      evalV G e (.slice (.var 5) (.var 9) (.len (.var 5))) = some (bytesV (cur.drop (16 * m))) :=
+    fun e h5 h9 => evalV_sliceFrom (evar h5) (evar h9) (by omega)
+  have k4 : EvIn P G O 1 e5 (.assign 8 [] (.idxc (.slice (.var 5) (.var 9) (.len (.var 5))) 0)) e5a .norm :=
+    chk0 (qs e5 g5_5 g5_9) (bytesV_ne (by rw [List.length_drop]; omega))
+  have k5 : EvIn P G O 1 e5a (.assign 8 [] (.idxc (.var tv) 0)) e5b .norm :=
+    chk0 (evar (by lk [e5a, e5])) (bytesV_ne (by omega))
+  have k6 : EvIn P G O 1 e5b (.assign 8 [] (.idxc (.var 6) 0)) e5c .norm :=
+    chk0 (evar (by lk [e5b, e5a, g5_6])) (bytesV_ne (by omega))
+  have c6 : EvIn P G O 1 e5c (.ext [] 0 true [(.lit (xn : Int))]) e5c .norm := ext_frame hO _ _
+  have g5c_5 : e5c 5 = bytesV cur := by lk [e5c, e5b, e5a, g5_5]
+  have g5c_9 : e5c 9 = .int ((16 * m : Nat) : Int) := by lk [e5c, e5b, e5a, g5_9]
+  have c7 : EvIn P G O 1 e5c (.ext [rv] xn false [(.slice (.var 5) (.var 9) (.len (.var 5))), (.var tv), (.var 6)]) e7
       .norm := by
     refine ext1 (vs := [bytesV (cur.drop (16 * m)), bytesV T, bytesV (X.drop (16 * m))]) ?_ ?_
-    · have q1 : evalV G e5 (.slice (.var 5) (.var 9) (.len (.var 5))) = some (bytesV (cur.drop (16 * m))) :=
-        evalV_sliceFrom (evar g5_5) (evar g5_9) (by omega)
-      have g2 : e5 tv = bytesV T := by lk [e5]
-      have g3 : e5 6 = bytesV (X.drop (16 * m)) := by lk [e5, e3, e2, e1, hs.h6]
+    · have q1 := qs e5c g5c_5 g5c_9
+      have g2 : e5c tv = bytesV T := by lk [e5c, e5b, e5a, e5]
+      have g3 : e5c 6 = bytesV (X.drop (16 * m)) := by lk [e5c, e5b, e5a, g5_6]
       simp only [evalVs_cons, evalVs_nil, q1, evalV_var, g2, g3]
     · exact hO.xor xn (16 * n) hxn _ _ _ (by rw [List.length_drop]; omega) (by omega) (by omega)
   have c8 : EvIn P G O 1 e7 (.assign 5 [] (.cat (.slice (.var 5) (.lit 0) (.var 9)) (.var rv))) e8 .norm := by
     refine EvIn.assign ?_
-    have g1 : e7 5 = bytesV cur := by lk [e7, g5_5]
-    have g2 : e7 9 = .int ((16 * m : Nat) : Int) := by lk [e7, g5_9]
+    have g1 : e7 5 = bytesV cur := by lk [e7, g5c_5]
+    have g2 : e7 9 = .int ((16 * m : Nat) : Int) := by lk [e7, g5c_9]
     have g3 : e7 rv = bytesV R := by lk [e7]
     rw [← htgt]
     exact evalV_catB (evalV_sliceB (l := 0) (evar g1) rfl (evar g2) (by omega) (by omega)) (evar g3)
   have g8_5 : e8 5 = bytesV tgt := by lk [e8]
-  have g8_9 : e8 9 = .int ((16 * m : Nat) : Int) := by lk [e8, e7, g5_9]
+  have g8_9 : e8 9 = .int ((16 * m : Nat) : Int) := by lk [e8, e7, g5c_9]
   have q9 : ∀ e : Env, e 9 = .int ((16 * m : Nat) : Int) →
       evalV G e (.op2 (.add .i64) (.var 9) (.lit ((16 * n : Nat) : Int))) = some (.int ((16 * m + 16 * n : Nat) : Int)) := by
     intro e he
@@ -286,27 +364,26 @@ theorem chunk_ok (hO : LeafOk O E rk) (hF : FillOk P G O Ffill) (hJ : J.length =
     EvIn.assign (q9 e9 (by lk [e9, g8_9]))
   have c11 : EvIn P G O 1 e10 (.assign 6 [] (.slice (.var 6) (.lit ((16 * n : Nat) : Int)) (.len (.var 6)))) e11 .norm := by
     refine EvIn.assign ?_
-    have g1 : e10 6 = bytesV (X.drop (16 * m)) := by lk [e10, e9, e8, e7, e5, e3, e2, e1, hs.h6]
+    have g1 : e10 6 = bytesV (X.drop (16 * m)) := by lk [e10, e9, e8, e7, e5c, e5b, e5a, g5_6]
     exact evalV_sliceFrom (evar g1) rfl (by omega)
   refine ⟨e11, ?_, ⟨?_, ?_, ?_, ?_, ?_, ?_⟩, ?_⟩
   · intro F rest e'' c hr
-    exact (EvIn.seq c1 (EvIn.seq c2 (EvIn.seq c3 (EvIn.seq c4 (EvIn.seq c5 (EvIn.seq c6 (EvIn.seq c7 (EvIn.seq c8
-      (EvIn.seq c9 (EvIn.seq c10 (EvIn.seq c11 hr))))))))))).mono (by omega)
-  · lk [e11, e10, e9, e8, e7, e5, e3, e2, e1, hs.h4]
+    exact chunk_seq c1 c2 c3 k1 k2 k3 c4 c5 k4 k5 k6 c6 c7 c8 c9 c10 c11 hr
+  · lk [e11, e10, e9, e8, e7, e5c, e5b, e5a, e5, e3c, e3b, e3a, e3, e2, e1, hs.h4]
   · lk [e11, e10, e9, e8]
     rfl
   · have : e11 6 = bytesV ((X.drop (16 * m)).drop (16 * n)) := by lk [e11]
     rw [this, List.drop_drop]
     congr 2
     omega
-  · lk [e11, e10, e9, e8, e7, e5, e3, e2, e1, hs.h7]
+  · lk [e11, e10, e9, e8, e7, e5c, e5b, e5a, e5, e3c, e3b, e3a, e3, e2, e1, hs.h7]
   · have : e11 9 = .int ((16 * m + 16 * n : Nat) : Int) := by lk [e11, e10]
     rw [this]
     congr 2
     omega
-  · lk [e11, e10, e9, e8, e7, e5, e3, e2, e1, hs.h14]
+  · lk [e11, e10, e9, e8, e7, e5c, e5b, e5a, e5, e3c, e3b, e3a, e3, e2, e1, hs.h14]
   · intro y hy h5 h6 h8 h9
-    lk [e11, e10, e9, e8, e7, e5, e3, e2, e1]
+    lk [e11, e10, e9, e8, e7, e5c, e5b, e5a, e5, e3c, e3b, e3a, e3, e2, e1]
 
 end Chunk
 
@@ -387,7 +464,7 @@ theorem loop256_ok (hO : LeafOk O E rk) (hF : FillOk P G O Ffill) (hJ : J.length
     (hle : X.length ≤ out0.length) (hmax : X.length ≤ maxPlain) (B : Nat) (hB : 16 * (16 * B) ≤ X.length) :
     ∀ (k i : Nat) (env : Env), i + k = B → St rk E out0 X J env (16 * i) (16 * i) → env 15 = .int (i : Int) →
       env 13 = .int (B : Int) →
-      ∃ env', EvIn P G O (k * (Ffill + 40) + 1) env loopS env' .norm ∧ St rk E out0 X J env' (16 * B) (16 * B) ∧
+      ∃ env', EvIn P G O (k * (Ffill + 50) + 1) env loopS env' .norm ∧ St rk E out0 X J env' (16 * B) (16 * B) ∧
         env' 11 = env 11 ∧ env' 12 = env 12 := by
   have hmax' := hmax
   rw [maxPlain_eq] at hmax'
@@ -446,7 +523,7 @@ theorem stage_ok (hO : LeafOk O E rk) (hF : FillOk P G O Ffill) (hJ : J.length =
     (htr : tv ≠ rv) (hg : (g, n) ∈ fillFns) (hen : (en, n) ∈ encLeaves) (hxn : (xn, 16 * n) ∈ xorLeaves)
     {env : Env} {m r : Nat} (hs : St rk E out0 X J env m m) (h12 : env 12 = .int (r : Int))
     (hlen : 16 * (m + r) ≤ X.length) (hr : r < 2 * n) (hn : n ≤ 8) (hbit : r &&& n ≠ 0 ↔ n ≤ r) :
-    ∃ (e' : Env) (m' r' : Nat), EvIn P G O (Ffill + 40) env (stageS cv tv rv g en xn n) e' .norm ∧ St rk E out0 X J e' m' m' ∧
+    ∃ (e' : Env) (m' r' : Nat), EvIn P G O (Ffill + 50) env (stageS cv tv rv g en xn n) e' .norm ∧ St rk E out0 X J e' m' m' ∧
       e' 12 = .int (r' : Int) ∧ m' + r' = m + r ∧ r' < n ∧ e' 11 = env 11 := by
   have hmax' := hmax
   rw [maxPlain_eq] at hmax'
@@ -600,14 +677,17 @@ def tailS : Stmt := .ite (.op2 .gt (.var 11) (.lit 0))
   (.seq (.assign 31 [] (.mk (.lit 16) (.lit 0)))
   (.seq (.assign 32 [] (.mk (.lit 16) (.lit 0)))
   (.seq (.call [31] 12 [(.var 31), (.var 7), (.var 14)])
+  (.seq (.assign 8 [] (.idxc (.var 4) 0))
+  (.seq (.assign 8 [] (.idxc (.var 32) 0))
+  (.seq (.assign 8 [] (.idxc (.var 31) 0))
   (.seq (.ext [] 0 true [(.lit 1)])
   (.seq (.ext [32] 1 false [(.var 4), (.var 32), (.var 31)])
-  (.seq (.assign 33 [] (.lit 0)) byteLoop)))))) .skip
+  (.seq (.assign 33 [] (.lit 0)) byteLoop))))))))) .skip
 
 theorem tail_ok (hO : LeafOk O E rk) (hF : FillOk P G O Ffill) (hJ : J.length = 16)
     (hle : X.length ≤ out0.length) (hmax : X.length ≤ maxPlain) {env : Env} {M ρ : Nat}
     (hs : St rk E out0 X J env M M) (h11 : env 11 = .int (ρ : Int)) (hL : X.length = 16 * M + ρ) (hρ : ρ < 16) :
-    ∃ e', EvIn P G O (Ffill + 70) env tailS e' .norm ∧
+    ∃ e', EvIn P G O (Ffill + 80) env tailS e' .norm ∧
       e' 5 = bytesV (gctr E (inc32 (blockToNat J)) X ++ out0.drop X.length) := by
   rw [maxPlain_eq] at hmax
   have hE := hO.E_len
@@ -630,7 +710,10 @@ theorem tail_ok (hO : LeafOk O E rk) (hF : FillOk P G O Ffill) (hJ : J.length = 
     let t1 := env.set 31 (bytesV Z)
     let t2 := t1.set 32 (bytesV Z)
     let t3 := t2.set 31 (bytesV CB)
-    let t5 := t3.set 32 (bytesV T)
+    let t3a := t3.set 8 (idx0 rk)
+    let t3b := t3a.set 8 (idx0 (bytesV Z))
+    let t3c := t3b.set 8 (idx0 (bytesV CB))
+    let t5 := t3c.set 32 (bytesV T)
     let t6 := t5.set 33 (.int ((0 : Nat) : Int))
     have c1 : EvIn P G O 1 env (.assign 31 [] (.mk (.lit 16) (.lit 0))) t1 .norm :=
       EvIn.assign (evalV_mkBytes (L := 16) rfl)
@@ -642,27 +725,33 @@ theorem tail_ok (hO : LeafOk O E rk) (hF : FillOk P G O Ffill) (hJ : J.length = 
       have g2 : t2 7 = bytesV J := by lk [t2, t1, hs.h7]
       have g3 : t2 14 = .int (M : Int) := by lk [t2, t1, hs.h14]
       simp only [evalVs_cons, evalVs_nil, evalV_var, g1, g2, g3]
-    have c4 : EvIn P G O 1 t3 (.ext [] 0 true [(.lit 1)]) t3 .norm := ext_frame hO _ _
-    have c5 : EvIn P G O 1 t3 (.ext [32] 1 false [(.var 4), (.var 32), (.var 31)]) t5 .norm := by
+    have k1 : EvIn P G O 1 t3 (.assign 8 [] (.idxc (.var 4) 0)) t3a .norm :=
+      chk0 (evar (by lk [t3, t2, t1, hs.h4])) hO.rk_ne
+    have k2 : EvIn P G O 1 t3a (.assign 8 [] (.idxc (.var 32) 0)) t3b .norm :=
+      chk0 (evar (by lk [t3a, t3, t2, t1])) (bytesV_ne (by omega))
+    have k3 : EvIn P G O 1 t3b (.assign 8 [] (.idxc (.var 31) 0)) t3c .norm :=
+      chk0 (evar (by lk [t3b, t3a, t3])) (bytesV_ne (by rw [ctrBlocks_length]; omega))
+    have c4 : EvIn P G O 1 t3c (.ext [] 0 true [(.lit 1)]) t3c .norm := ext_frame hO _ _
+    have c5 : EvIn P G O 1 t3c (.ext [32] 1 false [(.var 4), (.var 32), (.var 31)]) t5 .norm := by
       refine ext1 (vs := [rk, bytesV Z, bytesV CB]) ?_ ?_
-      · have g1 : t3 4 = rk := by lk [t3, t2, t1, hs.h4]
-        have g2 : t3 32 = bytesV Z := by lk [t3, t2, t1]
-        have g3 : t3 31 = bytesV CB := by lk [t3]
+      · have g1 : t3c 4 = rk := by lk [t3c, t3b, t3a, t3, t2, t1, hs.h4]
+        have g2 : t3c 32 = bytesV Z := by lk [t3c, t3b, t3a, t3, t2, t1]
+        have g3 : t3c 31 = bytesV CB := by lk [t3c, t3b, t3a, t3]
         simp only [evalVs_cons, evalVs_nil, evalV_var, g1, g2, g3]
       · rw [hO.enc 1 1 (by decide) Z CB (by omega) (by rw [ctrBlocks_length]; omega), blocksE_ctrBlocks,
           List.drop_of_length_le (by omega), List.append_nil]
     have c6 : EvIn P G O 1 t5 (.assign 33 [] (.lit 0)) t6 .norm := EvIn.assign rfl
     have g5 : t6 5 = bytesV (A ++ (xorBytes (T.take 0) ((X.drop (16 * M)).take 0) ++ (out0.drop (16 * M)).drop 0)) := by
-      have : t6 5 = env 5 := by lk [t6, t5, t3, t2, t1]
+      have : t6 5 = env 5 := by lk [t6, t5, t3c, t3b, t3a, t3, t2, t1]
       rw [this, hs.h5, List.take_zero, List.take_zero, List.drop_zero]
       rfl
     obtain ⟨e', hl, h5⟩ := byte_loop_ok (P := P) (G := G) (O := O) A T (X.drop (16 * M)) (out0.drop (16 * M))
       (16 * M) ρ hAl (by omega) (by rw [List.length_drop]; omega) (by rw [List.length_drop]; omega) (by omega)
-      ρ 0 t6 (by omega) (by lk [t6]) (by lk [t6, t5, t3, t2, t1, h11]) (by lk [t6, t5, t3, t2, t1, hs.h9])
-      (by lk [t6, t5]) (by lk [t6, t5, t3, t2, t1, hs.h6]) g5
+      ρ 0 t6 (by omega) (by lk [t6]) (by lk [t6, t5, t3c, t3b, t3a, t3, t2, t1, h11]) (by lk [t6, t5, t3c, t3b, t3a, t3, t2, t1, hs.h9])
+      (by lk [t6, t5]) (by lk [t6, t5, t3c, t3b, t3a, t3, t2, t1, hs.h6]) g5
     refine ⟨e', ?_, ?_⟩
-    · exact (EvIn.ite hc rfl (EvIn.seq c1 (EvIn.seq c2 (EvIn.seq c3 (EvIn.seq c4 (EvIn.seq c5
-        (EvIn.seq c6 hl))))))).mono (by omega)
+    · exact (EvIn.ite hc rfl (EvIn.seq c1 (EvIn.seq c2 (EvIn.seq c3 (EvIn.seq k1 (EvIn.seq k2 (EvIn.seq k3
+        (EvIn.seq c4 (EvIn.seq c5 (EvIn.seq c6 hl)))))))))).mono (by omega)
     · rw [h5, final_val hE X out0 j M ρ hL (by omega)]
 
 end Tail
@@ -691,7 +780,7 @@ theorem fn_6_body : fn_6.body =
     (.seq tailS (.ret [(.var 5)])))))))))))))) := rfl
 
 /-- the fuel of `cryptoBlocks` on an input of `l` bytes, `Ffill` the fuel of the `fillCounterN` functions -/
-def fuelCB (Ffill l : Nat) : Nat := l / 16 / 16 * (Ffill + 40) + (5 * Ffill + 300)
+def fuelCB (Ffill l : Nat) : Nat := l / 16 / 16 * (Ffill + 50) + (5 * Ffill + 400)
 
 section Main
 variable {P : Prog} {G : Nat → Val} {O : Oracle} {E : Bytes → Bytes} {rk : Val} {Ffill : Nat}
@@ -804,8 +893,8 @@ theorem crypto_computes (h6 : P[6]? = some fn_6) (hO : LeafOk O E rk) (hF : Fill
   rw [fn_6_body]
   refine (EvIn.seq a1 (EvIn.seq a2 (EvIn.seq a3 (EvIn.seq a4 (EvIn.seq a5 (EvIn.seq a6 (EvIn.seq a7 (EvIn.seq cl
     (EvIn.seq a9 (EvIn.seq c10 (EvIn.seq c11 (EvIn.seq c12 (EvIn.seq c13 (EvIn.seq c14 cr)))))))))))))).mono ?_
-  show _ ≤ L / 16 / 16 * (Ffill + 40) + (5 * Ffill + 300)
-  generalize B * (Ffill + 40) = w
+  show _ ≤ L / 16 / 16 * (Ffill + 50) + (5 * Ffill + 400)
+  generalize B * (Ffill + 50) = w
   omega
 
 /-- the same, in the shape of the field `crypto` of `GlueCallees` (with `Fcb := fuelCB Ffill`) -/
